@@ -139,6 +139,12 @@ def validate_translator(cache, ll2c):
             res["cases"] += 1
             if outs[0] == outs[1] == outs[2] and len(outs[0][1]) > 0: res["identical"] += 1
             else: res["mismatch"].append(name)
+    # C08/C09: mutable global variables of the library (ll2c lists every non-constant global definition of the linked module)
+    mg = set()
+    for variant in ("call", "direct"):
+        m = re.search(r"/\* MUTABLE_GLOBALS:(.*?)\*/", open(os.path.join(d, f"lib_{variant}.c")).read())
+        if m: mg |= set(m.group(1).split())
+    res["mutable_globals"] = sorted(mg)
     res["seconds"] = round(time.time() - t0, 1)
     res["ok"] = not res["mismatch"] and res["cases"] > 0
     return res
@@ -515,6 +521,11 @@ def main():
             key = (a.pid, q.known) if q.known else None
             if key and key in known: knownhits.append((r, known[key]))
             else: violations.append(r)
+    if a.pid in ("C08", "C09") and val.get("mutable_globals"):
+        rd = os.path.join(VERIF, "replays", a.pid, "mutable_globals"); os.makedirs(rd, exist_ok=True)
+        open(os.path.join(rd, "globals.txt"), "w").write("\n".join(val["mutable_globals"]) + "\n")
+        print("VIOLATION property=%s replay=%s the library defines mutable global state: %s" % (a.pid, rd, " ".join(val["mutable_globals"])[:300]))
+        violations.append({"name": "mutable_globals", "failed": [], "verdict": "fails"})
     for r, what in knownhits: print(f"KNOWN-FINDING: property={a.pid} {what}")
     for r in violations:
         rp = r.get("replay", {})
